@@ -25,6 +25,9 @@ JAR = "/opt/veriftools/tla/tla2tools.jar"
 DEPS = "/opt/veriftools/tla/CommunityModules-deps.jar"
 
 
+NPROC = int(os.environ.get("VERIF_NPROC", "16"))
+
+
 class TLCError(Exception):
     pass
 
@@ -55,6 +58,7 @@ def run(module, cfg_text, workdir, workers=16, timeout=600, coverage=False, simu
         extra=(), env=None, java_opts=(), depth_first=False, keep_stdout=True, heap="8g"):
     """module: name of a .tla in specs/ ; cfg_text: full cfg contents (literal constants)."""
     os.makedirs(workdir, exist_ok=True)
+    workers = max(1, min(int(workers), NPROC))
     # copy all specs so EXTENDS/INSTANCE resolve; TLC writes nothing next to them but the metadir
     sdir = os.path.join(workdir, "specs")
     if os.path.isdir(sdir):
